@@ -48,6 +48,8 @@ BETWEEN = tuple(f"0;255;3;0;{t};x\n" for t in range(0, 34) if t != 2) + tuple(f"
     "1;255;3;0;11;sketch\n", "9;0;1;0;2;1\n", "1;7;1;0;2;1\n", "junk\n", "255;255;3;0;3;\n", "1;255;4;0;0;00\n",
     # the woken node reboots and presents itself again; another sleeping node does
     "1;255;0;0;17;2.0\n", "1;255;0;0;18;2.2.0\n", "2;255;0;0;17;2.0\n", "1;255;0;0;17;\n",
+    # the woken node (and the other one) asks for / reports exactly the values that are parked for it
+    "1;0;2;0;0;\n", "1;1;2;0;0;\n", "2;0;2;0;0;\n", "1;0;2;1;0;\n", "1;0;1;0;0;v0\n", "1;1;1;0;0;v1\n", "1;1;1;1;0;other\n", "2;0;1;0;0;v2\n",
     # what the application does after the failed flush: asks the node for the state it failed to switch, sends other commands,
     # saves and reloads the registry (node objects are replaced)
     "@send-req", "@send-req-ack", "@send-internal", "@reload", "@save",
